@@ -87,7 +87,7 @@ func (c17) Run(c *run.Ctx, phase, idx int) {
 	r := rng(c.Env, "C17", phase, idx)
 	reps := 4
 	if c.Thorough {
-		reps = 40
+		reps = 4000
 	}
 	switch phase {
 	case 0:
